@@ -249,7 +249,8 @@ class BodyMixin:
         markup = None
         mp = MULTIPART_BOUNDARY_PATT.match(self.environ.get('CONTENT_TYPE', ''))
         if mp is not None:
-            markup = MultipartMarkup(mp.group(1))
+            # the boundary parameter may be a quoted string (RFC 2046 requires it for some characters)
+            markup = MultipartMarkup(mp.group(1).strip('"'))
         try:
             body = _body_read(
                 self.environ['wsgi.input'].read,
